@@ -4,7 +4,8 @@ from ..sched import check, configs as C
 LEVEL = 'model_checking'
 TECHNIQUE = ('stateless model checking of the real scheduler: exhaustive enumeration of thread interleavings '
              'up to a preemption bound (iterative context bounding) under a controlled scheduler')
-RULE = ('every schedule (choice of the next thread at every synchronisation operation: lock acquire, condition wait/resume, '
+RULE = ('[configurations also cover: a DepGraph used as a node, re-runs with a DONE middle task, a second schedule() on the same backend in which a task gained a dependency; dependency outcomes incl. self-clobbering, half-applied and non-final-status results] ' +
+        'every schedule (choice of the next thread at every synchronisation operation: lock acquire, condition wait/resume, '
         'queue put/get/task_done/join, thread start/join, entry of do()) of Scheduler.schedule() with at most `preemption_bound` '
         'preemptions, for each listed configuration (graph x worker count x dependency outcome); oracle evaluated on every '
         'execution from the probe log; non-trivial = executions with at least one preemption; states = distinct abstract global '
